@@ -84,7 +84,7 @@ func Harness_C17_HostileMessages() {
 	vAssert("registered", err == nil)
 	regID, _ := cl.RegistrationID("p")
 
-	switch vChoice("hostile", 10) {
+	switch vChoice("hostile", 11) {
 	case 0: // EVENT with payload-passthru details
 		d, args := vPPTDetails()
 		rt.send(&wamp.Event{Subscription: subID, Publication: 1, Details: d, Arguments: args})
@@ -136,6 +136,33 @@ func Harness_C17_HostileMessages() {
 		if !cl.Connected() {
 			// the client aborted the session over a protocol violation: allowed
 			vCover("client-aborted-session")
+			return
+		}
+	case 10: // a progressive RESULT for a call that did not ask for progress
+		rt.holdCall = true
+		done := make(chan struct{})
+		go func() {
+			defer close(done)
+			ctx, cancel := context.WithTimeout(context.Background(), time.Second)
+			defer cancel()
+			cl.Call(ctx, "q", nil, nil, nil, nil)
+		}()
+		vQuiesce()
+		var req wamp.ID
+		for _, m := range rt.got {
+			if c, ok := m.(*wamp.Call); ok {
+				req = c.Request
+			}
+		}
+		rt.send(&wamp.Result{Request: req, Details: wamp.Dict{"progress": true}, Arguments: wamp.List{1}})
+		rt.send(&wamp.Result{Request: req, Details: wamp.Dict{}, Arguments: wamp.List{2}})
+		vQuiesce()
+		vAdvance(int64(3 * time.Second)) // the call's own deadline and the response timeout
+		vQuiesce()
+		select {
+		case <-done:
+		default:
+			vAssert("call-returns-despite-unrequested-progress", false)
 			return
 		}
 	case 8: // duplicate / old invocation ids
